@@ -991,8 +991,14 @@ func TestC17_PKCS12(t *testing.T) {
 				t.Fatalf("DecodeAll of a corrupted bundle panicked (byte %d: %#x->%#x): %v\n%s", pos, b, nb, p.Val, p.Stack)
 			}
 			if e == nil {
-				ek, ok := mk.(*ecdsa.PrivateKey)
-				if !ok || ek.D.Cmp(wantD) != 0 || len(mc) == 0 || !bytes.Equal(mc[0].Raw, cert.Raw) {
+				var gotD *big.Int
+				switch k := mk.(type) {
+				case *ecdsa.PrivateKey:
+					gotD = k.D
+				case *rsa.PrivateKey:
+					gotD = k.D
+				}
+				if gotD == nil || gotD.Cmp(wantD) != 0 || len(mc) == 0 || !bytes.Equal(mc[0].Raw, cert.Raw) {
 					t.Fatalf("corrupted bundle (byte %d: %#x->%#x) decoded to a DIFFERENT key or certificate", pos, b, nb)
 				}
 			}
